@@ -39,11 +39,16 @@ class EvalContext(metaclass=NamespaceableMeta):
             super().__init__({})
 
         def __getitem__(self, key):
-            if key not in self:
-                node = self._cfgobj[key]
-                return self._eval_ctx.evaluate_node(node, self._path + [key])
+            if key in self:
+                value = super().__getitem__(key)
+                # a partial placeholder stands either for a node which is still being evaluated (it then gives lazy access to
+                # the node's children) or for a node which has only been passed through on the way to one of its descendants -
+                # the latter has not been evaluated yet and has to be evaluated now, like a missing entry
+                if type(value) is not EvalContext.PartialChild or id(self._cfgobj[key]) in self._eval_ctx._in_progress:
+                    return value
 
-            return super().__getitem__(key)
+            node = self._cfgobj[key]
+            return self._eval_ctx.evaluate_node(node, self._path + [key])
 
         def __getattr__(self, name):
             #if name not in self:
@@ -87,6 +92,7 @@ class EvalContext(metaclass=NamespaceableMeta):
 
         self._require_all_safe = False
         self._eval_stack = []
+        self._in_progress = set()
 
         self.user_data = None
 
@@ -145,7 +151,12 @@ class EvalContext(metaclass=NamespaceableMeta):
 
             evaluated_parent = enode
 
-        evaluated_cfgobj = cfgobj.ayns.on_evaluate(prefix, self)
+        self._in_progress.add(id(cfgobj))
+        try:
+            evaluated_cfgobj = cfgobj.ayns.on_evaluate(prefix, self)
+        finally:
+            self._in_progress.discard(id(cfgobj))
+
         if evaluated_parent is not None:
             evaluated_parent[prefix[-1]] = evaluated_cfgobj
 
